@@ -5,9 +5,11 @@ import random
 
 class FakeEndpoint:
     """an endpoint that either refuses (errback) or connects the factory's protocol to a transport we drive"""
-    def __init__(self, name, reachable, log):
+    def __init__(self, name, reachable, log, dbus_args=None):
         self.name, self.reachable, self.log = name, reachable, log
         self.proto = self.transport = None
+        # what getDBusEndpoints attaches to every endpoint it creates: the key=value parameters of the address entry
+        self.dbus_args = dict(dbus_args or {})
 
     def connect(self, factory):
         from twisted.internet import defer, error
@@ -31,7 +33,10 @@ def start(reach):
     clock = task.Clock()
     client.reactor = clock
     log = []
-    eps = [FakeEndpoint('ep%d' % i, r, log) for i, r in enumerate(reach)]
+    kinds = [{'path': '/run/bus%d'}, {'host': 'h%d', 'port': '7'}, {'nonce-tcp': True, 'host': 'h%d', 'port': '9', 'noncefile': '/n%d'}, {'abstract': 'a%d'}]
+    _name_turn[0] += 1
+    eps = [FakeEndpoint('ep%d' % i, r, log, {k: (v % i if isinstance(v, str) and '%d' in v else v) for k, v in kinds[(i + _name_turn[0]) % len(kinds)].items()})
+           for i, r in enumerate(reach)]
     orig = endpoints.getDBusEndpoints
     endpoints.getDBusEndpoints = lambda reactor, addr, client=True: list(eps)
     try:
@@ -173,6 +178,7 @@ def loss_case(rnd, ncalls, timers, explicit, introspected, dup_cb, local=False):
         dcan.addErrback(lambda f: None)
         dcan.cancel()
     proxies = []
+    cbs = {}
     iface = interface.DBusInterface('org.verif.P', interface.Method('M'), noRegister=True)
     for k in range(explicit):
         got = []
@@ -190,7 +196,16 @@ def loss_case(rnd, ncalls, timers, explicit, introspected, dup_cb, local=False):
     for name, got in proxies:
         if len(got) != 1 or isinstance(got[0], failure.Failure):
             return '%s: proxy %s not obtained: %r' % (what, name, got)
-        got[0].notifyOnDisconnect(lambda o, r, name=name: ran.append((name, r)))
+        cbs[name] = lambda o, r, name=name: ran.append((name, r))
+        got[0].notifyOnDisconnect(cbs[name])
+    renamed = {}
+    if proxies and rnd.random() < 0.5:
+        # the only callback of a proxy is withdrawn and another one registered later: the proxy still counts as interested
+        name, got = proxies[-1]
+        got[0].cancelNotifyOnDisconnect(cbs[name])
+        renamed[name] = name + '_again'
+        got[0].notifyOnDisconnect(lambda o, r, name=name: ran.append((name + '_again', r)))
+        what += ', the callback of %s cancelled and a new one registered' % name
     cancelled = None
     if proxies and rnd.random() < 0.3:
         extra = lambda o, r: ran.append(('cancelled', r))
@@ -209,7 +224,7 @@ def loss_case(rnd, ncalls, timers, explicit, introspected, dup_cb, local=False):
         reason = lose(ep)
     except Exception as e:
         return '%s: connectionLost raised %s: %s' % (what, type(e).__name__, e)
-    want = ['conn0', 'conn1'] + (['conn1'] if dup_cb else []) + [n for n, _ in proxies]
+    want = ['conn0', 'conn1'] + (['conn1'] if dup_cb else []) + [renamed.get(n, n) for n, _ in proxies]
     if sorted(n for n, _ in ran) != sorted(want):
         return '%s: disconnect callbacks run %r, expected %r' % (what, sorted(n for n, _ in ran), sorted(want))
     if any(r is not reason for _, r in ran):
@@ -232,9 +247,74 @@ def loss_case(rnd, ncalls, timers, explicit, introspected, dup_cb, local=False):
     return None
 
 
+def address_case():
+    """the real getDBusEndpoints: every entry of a bus address list (unix path / abstract, tcp, nonce-tcp) becomes one endpoint,
+    in listed order, carrying its parameters; 'session' / 'system' come from the environment; and connect() tries what the
+    address lists - all three kinds - in that order"""
+    import os
+    from twisted.internet import defer, error
+    from twisted.python import failure
+    from txdbus import client, endpoints
+    table = [('unix:path=/run/a', [('UNIXClientEndpoint', {'_path': '/run/a'})]),
+             ('unix:abstract=abc,guid=12', [('UNIXClientEndpoint', {'_path': '\0abc'})]),
+             ('tcp:host=example.org,port=1234', [('TCP4ClientEndpoint', {'_host': 'example.org', '_port': 1234})]),
+             ('nonce-tcp:host=h,port=99,noncefile=/tmp/n', [('TCP4ClientEndpoint', {'_host': 'h', '_port': 99})]),
+             ('unix:path=/x;tcp:host=a,port=1;nonce-tcp:host=b,port=2,noncefile=/n;unix:abstract=q',
+              [('UNIXClientEndpoint', {'_path': '/x'}), ('TCP4ClientEndpoint', {'_host': 'a', '_port': 1}), ('TCP4ClientEndpoint', {'_host': 'b', '_port': 2}), ('UNIXClientEndpoint', {'_path': '\0q'})]),
+             ('tcp:host=a,port=1;unix:path=/x', [('TCP4ClientEndpoint', {'_host': 'a', '_port': 1}), ('UNIXClientEndpoint', {'_path': '/x'})])]
+    saved = {k: os.environ.get(k) for k in ('DBUS_SESSION_BUS_ADDRESS', 'DBUS_SYSTEM_BUS_ADDRESS')}
+    try:
+        os.environ['DBUS_SESSION_BUS_ADDRESS'] = 'unix:path=/run/session;tcp:host=s,port=5'
+        os.environ.pop('DBUS_SYSTEM_BUS_ADDRESS', None)
+        table += [('session', [('UNIXClientEndpoint', {'_path': '/run/session'}), ('TCP4ClientEndpoint', {'_host': 's', '_port': 5})]),
+                  ('system', [('UNIXClientEndpoint', {'_path': '/var/run/dbus/system_bus_socket'})])]
+        for addr, want in table:
+            try:
+                eps = endpoints.getDBusEndpoints(object(), addr)
+            except Exception as e:
+                return 'getDBusEndpoints(%r) raised %s: %s' % (addr, type(e).__name__, e)
+            got = [(type(e).__name__, {k: getattr(e, k, None) for k in w[1]}) for e, w in zip(eps, want)]
+            if len(eps) != len(want) or got != want:
+                return 'getDBusEndpoints(%r) = %r, the address lists %r' % (addr, [(type(e).__name__, getattr(e, '_path', None), getattr(e, '_host', None), getattr(e, '_port', None)) for e in eps], want)
+            if any(not isinstance(getattr(e, 'dbus_args', None), dict) for e in eps):
+                return 'getDBusEndpoints(%r): an endpoint without its address parameters' % addr
+        # connect() walks exactly what the address lists: every kind is tried, in listed order, until one connects
+        tried = []
+
+        class Recording:
+            def __init__(self, ep): self.ep = ep
+            def __getattr__(self, n): return getattr(self.ep, n)
+
+            def connect(self, factory):
+                tried.append((type(self.ep).__name__, getattr(self.ep, '_path', None) or (self.ep._host, self.ep._port)))
+                return defer.fail(failure.Failure(error.ConnectionRefusedError('refused')))
+        orig = endpoints.getDBusEndpoints
+        endpoints.getDBusEndpoints = lambda reactor, a, client=True: [Recording(e) for e in orig(reactor, a, client)]
+        try:
+            fired = []
+            client.connect(object(), table[4][0]).addBoth(fired.append)
+        finally:
+            endpoints.getDBusEndpoints = orig
+        want_tried = [('UNIXClientEndpoint', '/x'), ('TCP4ClientEndpoint', ('a', 1)), ('TCP4ClientEndpoint', ('b', 2)), ('UNIXClientEndpoint', '\0q')]
+        if tried != want_tried:
+            return 'connect(%r) tried %r, the address lists %r' % (table[4][0], tried, want_tried)
+        if len(fired) != 1 or not isinstance(fired[0], failure.Failure):
+            return 'connect() with every listed address refusing: Deferred fired %r' % (fired,)
+    finally:
+        for k, v in saved.items():
+            if v is None:
+                os.environ.pop(k, None)
+            else:
+                os.environ[k] = v
+    return None
+
+
 def bounded(tier, seed):
     rnd = random.Random(seed * 389 + 7)
-    n = 0
+    n = 1
+    f = address_case()
+    if f:
+        return n, f, {'case': 'bus address lists'}
     stages = [0, 1, 2, 3, 'refuse', 'hello_error']
     for k in (0, 1, 2, 3):
         for reach in itertools.product([False, True], repeat=k):
